@@ -161,19 +161,21 @@ type c17BoolDef struct{ c17Def }
 func (v *c17BoolDef) IsBoolFlag() bool { return true }
 
 type hNode struct {
-	name     string
-	aliases  []string
-	desc     string
-	longDesc string
-	hidden   bool
-	spec     string // as given ("" = none)
-	opts     []helpRow
-	args     []helpRow
-	argNames []string
-	kids     []*hNode
-	parent   *hNode
-	declare  func(c *cli.Cmd)
-	hasOpts  bool
+	name       string
+	aliases    []string
+	desc       string
+	longDesc   string
+	printTwice bool
+	bareKids   bool
+	hidden     bool
+	spec       string // as given ("" = none)
+	opts       []helpRow
+	args       []helpRow
+	argNames   []string
+	kids       []*hNode
+	parent     *hNode
+	declare    func(c *cli.Cmd)
+	hasOpts    bool
 	// printFromAction: 1 = the Action calls PrintHelp(), 2 = PrintLongHelp() (user code asking for the help text)
 	printFromAction int
 }
@@ -218,6 +220,9 @@ func genHelpNode(r *rand.Rand, name string, depth int, parent *hNode, version bo
 	}
 	ni := 0
 	no := r.Intn(5)
+	if parent != nil && parent.bareKids {
+		no = 0 // a sub-command that declares nothing: its parent's help can be printed any number of times
+	}
 	many := r.Intn(12) == 0
 	if many {
 		no = 9 + r.Intn(3) // more than eight options
@@ -319,13 +324,25 @@ func genHelpNode(r *rand.Rand, name string, depth int, parent *hNode, version bo
 		n.hasOpts = true
 	}
 	na := r.Intn(3)
+	if parent != nil && parent.bareKids {
+		na = 0
+	}
 	for k := 0; k < na; k++ {
 		nm := []string{"SRC", "DST", "FILE_1"}[k]
 		d := hDescs[r.Intn(len(hDescs))]
 		e := hEnvs[r.Intn(len(hEnvs))]
 		hide := r.Intn(4) == 0
 		dv := ""
-		if r.Intn(2) == 0 {
+		if r.Intn(5) == 0 {
+			// a user-defined value type as argument: String() is its default, HideValue hides it
+			txt := []string{"", "cv-arg", "[]"}[r.Intn(3)]
+			decls = append(decls, func(c *cli.Cmd) {
+				c.Var(cli.VarArg{Name: nm, Desc: d, EnvVar: e, Value: &c17Plain{txt}, HideValue: hide})
+			})
+			if !hide && txt != "" {
+				dv = "(default " + txt + ")"
+			}
+		} else if r.Intn(2) == 0 {
 			v := []string{"", "dflt", "5%"}[r.Intn(3)]
 			decls = append(decls, func(c *cli.Cmd) { c.String(cli.StringArg{Name: nm, Desc: d, EnvVar: e, Value: v, HideValue: hide}) })
 			if !hide && v != "" {
@@ -361,6 +378,7 @@ func genHelpNode(r *rand.Rand, name string, depth int, parent *hNode, version bo
 	}
 	if depth > 0 {
 		nk := r.Intn(4)
+		n.bareKids = r.Intn(4) == 0
 		for k := 0; k < nk; k++ {
 			n.kids = append(n.kids, genHelpNode(r, fmt.Sprintf("%s%d", []string{"cmd", "sub", "leaf"}[2-depth%3], k), depth-1, n, false))
 		}
@@ -375,11 +393,19 @@ func genHelpNode(r *rand.Rand, name string, depth int, parent *hNode, version bo
 			c.Hidden = true // assigned before the subcommands are declared, and only when set
 		}
 		c.Action = func() {
-			switch n.printFromAction {
-			case 1:
-				c.PrintHelp()
-			case 2:
-				c.PrintLongHelp()
+			// asked for twice where the pinned library allows it (listing the sub-commands initialises them again, which
+			// panics for one that declares options or arguments): printing the help changes nothing about the command
+			times := 1
+			if n.printTwice {
+				times = 2
+			}
+			for twice := 0; twice < times; twice++ {
+				switch n.printFromAction {
+				case 1:
+					c.PrintHelp()
+				case 2:
+					c.PrintLongHelp()
+				}
 			}
 		}
 		for _, k := range n.kids {
@@ -504,6 +530,12 @@ func runC17(c *core.Ctx) {
 	case fromAction:
 		// valid invocation (every spec of the generator accepts an empty segment); the Action itself prints the help
 		target.printFromAction = map[bool]int{false: 1, true: 2}[long]
+		target.printTwice = true
+		for _, k := range target.kids {
+			if len(k.opts)+len(k.args) > 0 {
+				target.printTwice = false
+			}
+		}
 	case long:
 		argv = append(argv, []string{"--help", "-h"}[r.Intn(2)])
 	default:
@@ -538,6 +570,15 @@ func runC17(c *core.Ctx) {
 		return
 	}
 	out := buf.String()
+	if fromAction && target.printTwice {
+		// the Action asked for the help twice
+		if h := len(out) / 2; len(out)%2 != 0 || out[:h] != out[h:] {
+			c.Violation("printed twice by the same Action, the help text is not the same the second time", map[string]interface{}{"help": out}, nil)
+			return
+		} else {
+			out = out[:h]
+		}
+	}
 	nel := len(target.opts) + len(target.args) + len(target.kids)
 	if nel >= 2 {
 		c.Nontrivial(fmt.Sprintf("%v|%v|%v|%s|%v|%v", target.opts, target.args, target.spec, target.path(), long, len(target.kids)))
